@@ -302,7 +302,7 @@ Proof. intros E. induction l as [|x l IH]; cbn; [reflexivity|]. rewrite E, IH. r
 Lemma all_stages_one {A} (f : stage -> A -> M bool) s x : all_stages f [s] x = f s x.
 Proof. cbn. destruct (f s x) as [[|]|e]; reflexivity. Qed.
 
-Definition lookup_error (e : exn) : resp := match e with ValueError | KeyError => Err BadRequest | _ => Err e end.
+Definition lookup_error (e : exn) : resp := match e with ValueError | KeyError | TypeError => Err BadRequest | _ => Err e end.
 
 Lemma ep_lookup_single_lemma st s k v : split_eq s = (k, v) -> is_paging k = false ->
   ep_lookup st [s] None =
@@ -358,3 +358,99 @@ Lemma lookup_exact_reachable : forall st, reachable st ->
   (forall r, In r (get_endpoints st) <-> exists id due s, In (id, r) (objs st) /\ r_timer r = Some (due, s) /\ now st < due) /\
   NoDup (map r_key (get_endpoints st)) /\ NoDup (map r_path (get_endpoints st)).
 Proof. intros st R. destruct (reachable_Inv st R) as [I S]. apply lookup_exact_lemma; assumption. Qed.
+
+(* ------------------------------------------------------------------ write requests are never answered 5.00 *)
+Lemma link_format_from_message_err b e : link_format_from_message b = Raise e -> e = BadRequest \/ e = UnsupportedMediaType.
+Proof. unfold link_format_from_message. intros H. repeat break_match; inv H; auto. Qed.
+
+Lemma _update_params_err st id remote q st1 e : _update_params st id remote q = (st1, Some e) -> e = BadRequest.
+Proof.
+  unfold _update_params. destruct (update_params _ _ _ _ _ _) as [r'|r' e'] eqn:EU; intros H; inv H.
+  apply update_params_fail_clean in EU. apply EU.
+Qed.
+
+Lemma handle_errors_4xx st o st1 e : Inv st -> is_lookup o = false -> handle st o = (st1, Err e) -> is_4xx (Err e) = true.
+Proof.
+  intros I NL. destruct o as [remote q b|path remote q b|path remote q b|path|path accept|q accept|q accept|dt]; cbn [handle]; try discriminate NL.
+  - unfold directory_render_post. destruct (link_format_from_message b) as [links|e0] eqn:EL.
+    2:{ intros H; inv H. destruct (link_format_from_message_err _ _ EL) as [->| ->]; reflexivity. }
+    destruct (initialize_endpoint st remote (query_split q)) as [st2 [id0|e0]] eqn:EI; [discriminate|].
+    pose proof (initialize_endpoint_spec _ _ _ _ _ I EI) as S. cbn beta iota in S. destruct S as [_ ->]. intros H; inv H. reflexivity.
+  - destruct (lookup_path st path) as [tid|]; [|intros H; inv H; reflexivity].
+    unfold registration_render_post. destruct (_ || _); [intros H; inv H; reflexivity|].
+    destruct (_update_params st tid remote q) as [st2 [e0|]] eqn:EU; intros H; inv H. rewrite (_update_params_err _ _ _ _ _ _ EU). reflexivity.
+  - destruct (lookup_path st path) as [tid|]; [|intros H; inv H; reflexivity].
+    unfold registration_render_put. destruct (link_format_from_message b) as [links|e0] eqn:EL.
+    2:{ intros H; inv H. destruct (link_format_from_message_err _ _ EL) as [->| ->]; reflexivity. }
+    destruct (_update_params st tid remote q) as [st2 [e0|]] eqn:EU; intros H; inv H. rewrite (_update_params_err _ _ _ _ _ _ EU). reflexivity.
+  - destruct (lookup_path st path) as [tid|] eqn:EP; [|intros H; inv H; reflexivity].
+    apply lookup_path_In in EP. destruct EP as (p & Hp & _). destruct (inv_bp _ _ _ _ _ I _ _ Hp) as (r0 & Ho & _ & Hk).
+    unfold registration_render_delete. destruct (Inv_indexed_delete st tid _ I Hk) as [-> _]. discriminate.
+  - destruct (lookup_path st path); [|intros H; inv H; reflexivity]. unfold link_format_to_message. intros H. repeat break_match; discriminate.
+  - discriminate.
+Qed.
+
+(* any error answer to a request other than a lookup is a 4.xx, and leaves the directory unchanged *)
+Lemma error_answers_reachable : forall st o st' e, reachable st -> is_lookup o = false -> step st o = (st', Err e) ->
+  is_4xx (Err e) = true /\ st' = st.
+Proof.
+  intros st o st' e R NL H. destruct (reachable_Inv st R) as [I S].
+  assert (H4 : is_4xx (Err e) = true).
+  { unfold step in H. destruct (handle st o) as [st1 r1] eqn:EH. inv H. eapply handle_errors_4xx; eauto. }
+  split; [exact H4|]. eapply failed_op_unchanged_lemma; eauto.
+Qed.
+
+(* lookups never raise out of the filter stages (since 5a5d1e7), so they too are answered 2.05, 4.06 or 4.00 only *)
+Lemma any_m_total {A} (f : A -> M bool) l : (forall x, exists b, f x = Ok b) -> exists b, any_m f l = Ok b.
+Proof.
+  intros T. induction l as [|x l IH]; cbn; [eauto|]. destruct (T x) as [b ->]. cbn. destruct b; [eauto|exact IH].
+Qed.
+Lemma base_match_total m x : exists b, base_match m x = Ok b.
+Proof. unfold base_match. destruct m; [destruct x|]; eauto. Qed.
+Lemma matches_total m x : exists b, matches m x = Ok b.
+Proof. unfold matches. destruct (snd m); [|apply base_match_total]. destruct x; [|eauto]. apply any_m_total. intros v. apply base_match_total. Qed.
+Lemma or_m_total a b : (exists x, a = Ok x) -> (exists x, b = Ok x) -> exists x, or_m a b = Ok x.
+Proof. intros [x ->] [y ->]. unfold or_m. cbn. destruct x; eauto. Qed.
+Lemma _link_matches_total l k m : exists b, _link_matches l k m = Ok b.
+Proof. unfold _link_matches. apply any_m_total. intros kv. destruct (String.eqb (fst kv) k); [apply matches_total|eauto]. Qed.
+Lemma params_match_total r k m : exists b, params_match r k m = Ok b.
+Proof. unfold params_match. destruct (dget String.eqb (r_params r) k); [|eauto]. apply any_m_total. intros x. apply matches_total. Qed.
+Lemma ep_stage_total k m s c : exists b, ep_stage k m s c = Ok b.
+Proof.
+  unfold ep_stage. destruct s; apply or_m_total.
+  - apply matches_total. - apply any_m_total. intros r. apply matches_total.
+  - apply params_match_total. - apply any_m_total. intros r. apply _link_matches_total.
+Qed.
+Lemma res_stage_total k m s ec : exists b, res_stage k m s ec = Ok b.
+Proof.
+  unfold res_stage. destruct ec as [e c]. destruct s; apply or_m_total; try apply matches_total.
+  - apply _link_matches_total. - apply params_match_total.
+Qed.
+Lemma all_stages_total {A} (f : stage -> A -> M bool) ss x : (forall s y, exists b, f s y = Ok b) -> exists b, all_stages f ss x = Ok b.
+Proof. intros T. induction ss as [|s ss IH]; cbn; [eauto|]. destruct (T s x) as [b ->]. cbn. destruct b; [exact IH|eauto]. Qed.
+Lemma filter_m_total {A} (f : A -> M bool) l : (forall x, exists b, f x = Ok b) -> exists l', filter_m f l = Ok l'.
+Proof. intros T. induction l as [|x l IH]; cbn; [eauto|]. destruct (T x) as [b ->]. destruct IH as [l' ->]. cbn. eauto. Qed.
+
+Lemma _paginate_err {A} (l : list A) q e : _paginate (Ok l) q = Raise e -> e = BadRequest.
+Proof.
+  unfold _paginate, bind, pop_single_arg, py_int. intros H.
+  repeat (break_match; try discriminate; inv_eqs); try (inv H); try reflexivity; try discriminate.
+Qed.
+Lemma lookups_never_5xx st q accept : 
+  (forall e, ep_lookup st q accept = Err e -> e = BadRequest) /\ (forall e, res_lookup st q accept = Err e -> e = BadRequest).
+Proof.
+  split; intros e.
+  - unfold ep_lookup.
+    destruct (filter_m_total (all_stages (ep_stage (final_key (query_split q)) (final_matcher (query_split q))) (stages_of (query_split q))) (get_endpoints st)) as [l ->].
+    { intros x. apply all_stages_total. intros s y. apply ep_stage_total. }
+    destruct (_paginate (Ok l) (query_split q)) as [l'|e'] eqn:EP.
+    + unfold link_format_to_message. intros H. repeat break_match; discriminate.
+    + intros H. inv H. eapply _paginate_err; eauto.
+  - unfold res_lookup.
+    destruct (filter_m_total (all_stages (res_stage (final_key (query_split q)) (final_matcher (query_split q))) (stages_of (query_split q)))
+                (flat_map (fun e0 => map (fun c => (e0, c)) (get_based_links e0)) (get_endpoints st))) as [l ->].
+    { intros x. apply all_stages_total. intros s y. apply res_stage_total. }
+    cbn [bind]. destruct (_paginate (Ok (map snd l)) (query_split q)) as [l'|e'] eqn:EP.
+    + unfold link_format_to_message. intros H. repeat break_match; discriminate.
+    + intros H. inv H. eapply _paginate_err; eauto.
+Qed.
